@@ -518,6 +518,8 @@ impl Program {
     /// Return the next token in the stream, if it exists,
     /// but don't advance our position in it.
     pub fn peek_next_token(&self) -> Option<Token> {
+        #[cfg(abasic_verif)]
+        crate::verif::count_peek();
         self.tokens().get(self.location.token_index).cloned()
     }
 
@@ -633,5 +635,85 @@ impl Program {
                 Some(self.get_prev_location())
             }
         };
+    }
+}
+
+#[cfg(abasic_verif)]
+pub(crate) fn verif_location(location: &ProgramLocation) -> String {
+    match location.line {
+        ProgramLine::Immediate => format!("imm.{}", location.token_index),
+        ProgramLine::Line(n) => format!("{}.{}", n, location.token_index),
+    }
+}
+
+#[cfg(abasic_verif)]
+impl Program {
+    /// Canonical text of every runtime field, `|`-separated.
+    pub(crate) fn verif_snapshot(&self) -> String {
+        let breakpoint = match self.breakpoint {
+            None => "none".to_string(),
+            Some(nloc) => verif_location(&nloc.into()),
+        };
+        let stack = self
+            .stack
+            .iter()
+            .map(|frame| {
+                format!(
+                    "{}{{{}}}",
+                    verif_location(&frame.return_location),
+                    frame.variables.verif_snapshot()
+                )
+            })
+            .collect::<Vec<_>>();
+        let loops = self
+            .loop_stack
+            .iter()
+            .map(|info| {
+                format!(
+                    "{}@{}@{:016x}@{:016x}",
+                    crate::verif::esc(info.symbol.as_str()),
+                    verif_location(&info.location),
+                    crate::verif::bits(info.to_value),
+                    crate::verif::bits(info.step_value)
+                )
+            })
+            .collect::<Vec<_>>();
+        let data = match &self.data_iterator {
+            None => "none".to_string(),
+            Some(iterator) => iterator.verif_snapshot(),
+        };
+        let mut functions = self
+            .functions
+            .iter()
+            .map(|(name, definition)| {
+                format!(
+                    "{}[{}]@{}",
+                    crate::verif::esc(name.as_str()),
+                    definition
+                        .arguments
+                        .iter()
+                        .map(|a| crate::verif::esc(a.as_str()))
+                        .collect::<Vec<_>>()
+                        .join(","),
+                    verif_location(&definition.location.into())
+                )
+            })
+            .collect::<Vec<_>>();
+        functions.sort();
+        format!(
+            "lines={}|imm={}|loc={}|bp={}|stack={}|loops={}|data={}|fns={}",
+            self.numbered_lines.verif_snapshot(),
+            self.immediate_line
+                .iter()
+                .map(crate::verif::token)
+                .collect::<Vec<_>>()
+                .join(";"),
+            verif_location(&self.location),
+            breakpoint,
+            stack.join(";"),
+            loops.join(";"),
+            data,
+            functions.join(";")
+        )
     }
 }
